@@ -947,7 +947,7 @@ def get_input_string(
         inp = files[possible_inputs[0]]
 
         # Somehow, spurious newlines appear when reading files...
-        inp = inp[:-1] if inp[-1] == "\n" else inp
+        inp = inp[:-1] if inp and inp[-1] == "\n" else inp
 
     def solver():
         return ISLaSolver(grammar, constraint)
